@@ -24,6 +24,7 @@ import (
 	"fmt"
 	"math/rand"
 	"sync"
+	"sync/atomic"
 	"testing"
 	"time"
 
@@ -38,16 +39,25 @@ import (
 )
 
 // Heartbeats.  etcd: 300 ms (lease ttl int64(hb/time.Second) = 0 -> the server's
-// minimum; tick period 100 ms).  redis: 1 s, because refreshEphemeral goes
-// through go-redis Expire, which sends EXPIRE in whole seconds (a sub-second
-// heartbeat is raised to 1 s, a fractional one truncated) while SetNX sends the
-// exact PX value: only for whole-second heartbeats is "EXPIRE path heartbeat"
-// (the model's QTick) what reaches the server.
+// minimum; tick period 100 ms).  redis: 300 ms, 1 s or 1.2 s chosen per schedule
+// (by schedule index): refreshEphemeral goes through go-redis Expire, which
+// sends EXPIRE in whole seconds (a sub-second heartbeat is raised to 1 s, a
+// fractional one truncated) while SetNX sends the exact PX value; the model's
+// QTick mirrors this (Ephemeral.refresh_ms).
 const (
 	hbEtcd   = 300 * time.Millisecond
-	hbRedis  = time.Second
 	watchdog = 5 * time.Second
 )
+
+var redisHeartbeats = []time.Duration{300 * time.Millisecond, time.Second, 1200 * time.Millisecond}
+
+// refreshOf is go-redis formatSec applied to the heartbeat (Ephemeral.refresh_ms).
+func refreshOf(hb time.Duration) time.Duration {
+	if hb > 0 && hb < time.Second {
+		return time.Second
+	}
+	return (hb / time.Second) * time.Second
+}
 
 // tickAll is 2.5 tick periods: every live ticker fires at least once.
 func tickAll(hb time.Duration) time.Duration { return 5 * (hb / 3) / 2 }
@@ -201,19 +211,25 @@ type redisBackend struct {
 	srv  *miniredis.Miniredis
 	r    *redis.Rediaron
 	path string
+	beat time.Duration
 }
 
 func (q *redisBackend) name() string          { return "redis" }
 func (q *redisBackend) coq() string           { return "BRedis" }
-func (q *redisBackend) ttl() int64            { return int64(hbRedis / time.Millisecond) }
-func (q *redisBackend) hb() time.Duration     { return hbRedis }
+func (q *redisBackend) ttl() int64            { return int64(q.beat / time.Millisecond) }
+func (q *redisBackend) hb() time.Duration     { return q.beat }
 func (q *redisBackend) registered(int) string { return "" }
 func (q *redisBackend) close()                { q.srv.Close() }
 func (q *redisBackend) start(ctx context.Context) (<-chan struct{}, func(), error) {
-	return q.r.StartEphemeral(ctx, q.path, hbRedis)
+	return q.r.StartEphemeral(ctx, q.path, q.beat)
 }
 func (q *redisBackend) lapse() string {
-	q.srv.FastForward(hbRedis + time.Millisecond)
+	// the model advances its clock by max(ttl, refresh ttl) + 1 ms (Ephemeral.max_ttl)
+	d := q.beat
+	if r := refreshOf(q.beat); r > d {
+		d = r
+	}
+	q.srv.FastForward(d + time.Millisecond)
 	return ""
 }
 func (q *redisBackend) look() (bool, int, int64, string) {
@@ -304,6 +320,7 @@ type registrant struct {
 	ch     <-chan struct{} // expiry channel of the most recent successful registration
 	stop   func()
 	cancel context.CancelFunc
+	doomed bool // etcd: the harness revoked the lease of this registration
 }
 
 type spec struct {
@@ -361,7 +378,7 @@ func runSchedule(sp spec, b backend) outcome {
 				ob.Res, g.st = "ResOther", stRejected
 			case res.err == nil:
 				ob.Res, g.st = "ResOk", stActive
-				g.ch, g.stop = res.ch, res.stop
+				g.ch, g.stop, g.doomed = res.ch, res.stop, false
 				note(b.registered(o.I))
 			case errors.Is(res.err, types.ErrKeyExists):
 				ob.Res, g.st = "ResExists", stRejected
@@ -370,9 +387,43 @@ func runSchedule(sp spec, b backend) outcome {
 				ob.Res, g.st = "ResOther", stRejected
 			}
 		case kLapse:
+			// etcd: the registrant whose lease the key carries is about to lose it
+			// (known from the harness's own action, not from the outcome)
+			if b.name() == "etcd" {
+				if ex, owner, _, _ := b.look(); ex && owner >= 0 && owner < len(regs) {
+					regs[owner].doomed = true
+				}
+			}
 			note(b.lapse())
 		case kTick:
 			time.Sleep(tickAll(b.hb()))
+			// under machine load a ticker may need longer than 2.5 periods: wait (at
+			// most settleLimit more) for what the harness's own actions make due —
+			// etcd: the channel of a registrant whose lease the harness revoked;
+			// redis: one refresh of an existing key by an active registrant
+			deadline := time.Now().Add(settleLimit)
+			for time.Now().Before(deadline) {
+				pending := false
+				if b.name() == "etcd" {
+					for _, g := range regs {
+						if g.st == stActive && g.doomed && !isClosed(g.ch) {
+							pending = true
+						}
+					}
+				} else {
+					anyActive := false
+					for _, g := range regs {
+						anyActive = anyActive || g.st == stActive
+					}
+					if ex, _, ttl, _ := b.look(); anyActive && ex && ttl != int64(refreshOf(b.hb())/time.Millisecond) {
+						pending = true
+					}
+				}
+				if !pending {
+					break
+				}
+				time.Sleep(20 * time.Millisecond)
+			}
 			for _, g := range regs {
 				if g.st == stActive && isClosed(g.ch) {
 					g.st = stClosed
@@ -481,6 +532,46 @@ func lapseWhileRegistered(ops []mop) bool {
 	return flag
 }
 
+// ---- stall probe (etcd schedules) ----
+
+const stallLimit = 400 * time.Millisecond
+const settleLimit = 4 * time.Second
+
+type stallProbe struct {
+	done chan struct{}
+	res  chan time.Duration
+}
+
+func startProbe(cli *clientv3.Client) *stallProbe {
+	p := &stallProbe{done: make(chan struct{}), res: make(chan time.Duration, 1)}
+	go func() {
+		var worst time.Duration
+		prev := time.Now()
+		for {
+			select {
+			case <-p.done:
+				p.res <- worst
+				return
+			case <-time.After(20 * time.Millisecond):
+			}
+			ctx, cancel := context.WithTimeout(context.Background(), 3*time.Second)
+			_, _ = cli.Get(ctx, "/stallprobe")
+			cancel()
+			now := time.Now()
+			if g := now.Sub(prev) - 20*time.Millisecond; g > worst {
+				worst = g
+			}
+			prev = now
+		}
+	}()
+	return p
+}
+
+func (p *stallProbe) stop() time.Duration {
+	close(p.done)
+	return <-p.res
+}
+
 func corpus() [][]mop {
 	R := func(i int) mop { return mop{kReg, i} }
 	S := func(i int) mop { return mop{kStop, i} }
@@ -539,9 +630,10 @@ func TestC26(t *testing.T) {
 			srv.Close()
 			return nil, err
 		}
-		return &redisBackend{srv: srv, r: rd, path: fmt.Sprintf("/eph/%d", idx)}, nil
+		return &redisBackend{srv: srv, r: rd, path: fmt.Sprintf("/eph/%d", idx), beat: redisHeartbeats[idx%len(redisHeartbeats)]}, nil
 	}
 
+	var repeated, emittedStalled int64
 	outs := make([]outcome, len(specs))
 	errs := make([]error, len(specs))
 	sem := make(chan struct{}, 8)
@@ -552,16 +644,45 @@ func TestC26(t *testing.T) {
 		go func(idx int, sp spec) {
 			defer wg.Done()
 			defer func() { <-sem }()
-			b, err := mk(idx, sp)
-			if err != nil {
-				errs[idx] = err
-				return
+			// etcd schedules depend on real time (1 s leases kept alive by 100 ms
+			// tickers): a stall of the machine / the embedded server lets a lease
+			// expire by itself, which the schedule did not ask for.  A probe that is
+			// independent of the code under test measures the largest stall; a
+			// stalled run is repeated (at most twice) on a fresh key, then emitted anyway.
+			for attempt := 0; ; attempt++ {
+				b, err := mk(idx*8+attempt, sp)
+				if err != nil {
+					errs[idx] = err
+					return
+				}
+				var probe *stallProbe
+				if sp.b == "etcd" {
+					probe = startProbe(cli)
+				}
+				outs[idx] = runSchedule(sp, b)
+				if probe == nil {
+					return
+				}
+				stall := probe.stop()
+				if stall < stallLimit {
+					return
+				}
+				if attempt >= 2 {
+					atomic.AddInt64(&emittedStalled, 1)
+					return
+				}
+				atomic.AddInt64(&repeated, 1)
 			}
-			outs[idx] = runSchedule(sp, b)
 		}(idx, sp)
 	}
 	wg.Wait()
 
+	for k := int64(0); k < repeated; k++ {
+		r.Count("etcd_schedules_repeated_after_stall")
+	}
+	for k := int64(0); k < emittedStalled; k++ {
+		r.Count("etcd_schedules_emitted_although_stalled")
+	}
 	for idx, o := range outs {
 		if errs[idx] != nil {
 			t.Fatalf("schedule %d: backend setup failed: %v", idx, errs[idx])
@@ -595,5 +716,5 @@ func TestC26(t *testing.T) {
 		tags := map[string]any{"backend": o.b.name(), "lapse_while_registered": lwr}
 		r.Add(term, desc, tags, lwr || exists)
 	}
-	r.Finish("per backend (real StartEphemeral on embedded etcd with heartbeat 300 ms / miniredis with heartbeat 1 s): a corpus of 4 schedules (register-tick-stop; a rejected second registrant that registers after the first stopped; the redis witness lapse-takeover-stop; lapse with nobody taking over), then adaptive random schedules of 8-15 macro operations over 2 or 3 registrants (MReg 35%, MTickAll 30%, MLapse 15%, MStop 20% among the operations legal in the harness view), closed by a Stop of every still-active registrant; non-trivial = a lapse while somebody is registered, or a registration rejected with ErrKeyExists")
+	r.Finish("per backend (real StartEphemeral on embedded etcd with heartbeat 300 ms / miniredis with heartbeats 300 ms / 1 s / 1.2 s by schedule index; an etcd schedule during which an independent probe saw a stall >= 400 ms is repeated up to twice): a corpus of 4 schedules (register-tick-stop; a rejected second registrant that registers after the first stopped; the redis witness lapse-takeover-stop; lapse with nobody taking over), then adaptive random schedules of 8-15 macro operations over 2 or 3 registrants (MReg 35%, MTickAll 30%, MLapse 15%, MStop 20% among the operations legal in the harness view), closed by a Stop of every still-active registrant; non-trivial = a lapse while somebody is registered, or a registration rejected with ErrKeyExists")
 }
